@@ -102,8 +102,7 @@ class C02(RS.StepProp):
         return impl
 
     def known_class(self, case, impl, code):
-        if case['kind'] == 'step' and impl.get('class'):
-            return 'virtual_not_last'
+        # class virtual_not_last was repaired in /repo fa307dd (fragid := the coarse key): nothing is excused
         return None
 
     def describe(self, case):
@@ -120,7 +119,7 @@ class C02(RS.StepProp):
         if impl.get('exc'):
             return 'raised:%s@%s' % (impl['exc'], RS.STAGES.get(impl['stage']))
         return '%s:level%d%s' % ('all-atom' if impl['aa'] else 'coarse', case['level'],
-                                 ':virtual-not-last' if impl.get('class') else '')
+                                 ':virtual-before-real' if impl.get('class') else '')
 
 
 PROP = C02()
